@@ -289,7 +289,7 @@ def ins_run(cfg_kwargs, seed, record=None):
         if record is not None:
             s = ns._ordered_samples.samples
             record.append(dict(lw=(s["logL"] + s["logW"]).copy(), prev_logZ=prev, logZ=float(ns.log_evidence),
-                               values={k: float(getattr(ns, k)) for k in CRITERIA}))
+                               values={k: getattr(ns, k) for k in CRITERIA}))
         return r
 
     INS.compute_stopping_criterion = csc
@@ -338,28 +338,30 @@ def ins_base_worker(item):
     hist = ns.history["stopping_criteria"]
     for i, r in enumerate(rec):
         for k in CRITERIA:
-            hv = float(hist[k][i])
-            if not (hv == r["values"][k] or (math.isnan(hv) and math.isnan(r["values"][k]))):
+            hv = hist[k][i]
+            if not (hv == r["values"][k] or (math.isnan(float(hv)) and math.isnan(float(r["values"][k])))):
                 errs.append(("ins:history-differs-from-compared-value", f"{k} iteration {i}: {hv!r} vs {r['values'][k]!r}"))
         ess = kish(r["lw"])
-        if abs(ess - r["values"]["ess"]) > 1e-6 * ess:
+        if abs(ess - float(r["values"]["ess"])) > 1e-6 * ess:
             errs.append(("ins:ess-is-not-kish-ess", f"iteration {i}: {r['values']['ess']!r} vs {ess!r}"))
         if r["prev_logZ"] is not None:
             d = abs(r["logZ"] - float(r["prev_logZ"]))
-            if abs(d - r["values"]["log_dZ"]) > 1e-12 * (1 + d):
+            if abs(d - float(r["values"]["log_dZ"])) > 1e-12 * (1 + d):
                 errs.append(("ins:log_dZ-is-not-the-evidence-change", f"iteration {i}: {r['values']['log_dZ']!r} vs {d!r}"))
-        elif not math.isinf(r["values"]["log_dZ"]):
+        elif not math.isinf(float(r["values"]["log_dZ"])):
             errs.append(("ins:log_dZ-first-iteration", f"{r['values']['log_dZ']!r}"))
         fe = std_err_terms(r["lw"])
-        if abs(fe - r["values"]["fractional_error"]) > 1e-6 * (1 + fe):
+        if abs(fe - float(r["values"]["fractional_error"])) > 1e-6 * (1 + fe):
             errs.append(("ins:fractional-error-is-not-standard-error-over-Z", f"iteration {i}: {r['values']['fractional_error']!r} vs {fe!r}"))
-        if abs(math.exp(fe) - r["values"]["Z_err"]) > 1e-6 * (1 + math.exp(fe)):
+        if abs(math.exp(fe) - float(r["values"]["Z_err"])) > 1e-6 * (1 + math.exp(fe)):
             errs.append(("ins:Z_err-is-not-exp-of-the-log-evidence-error", f"iteration {i}: {r['values']['Z_err']!r} vs {math.exp(fe)!r}"))
     return dict(errs=errs, rec=[r["values"] for r in rec], n_samples=len(fs.nested_samples))
 
 
 def placements(vals):
-    fin = sorted({v for v in vals if math.isfinite(v)})
+    # tolerances are python floats (nessai converts them); the recorded values keep their own
+    # precision (np.longdouble for the error criteria) and are compared with the float tolerance
+    fin = sorted({float(v) for v in vals if math.isfinite(float(v))})
     if not fin:
         return [0.0]
     out = [fin[0] - 1.0] + [(a + b) / 2.0 for a, b in zip(fin, fin[1:])] + [fin[-1] + 1.0] + [fin[0]]
@@ -397,9 +399,9 @@ def ins_pred_worker(item):
             continue
         h = fs.ns.history["stopping_criteria"]
         for c in set(canon):
-            got = [float(v) for v in h[c]]
+            got = list(h[c])
             want = [rec[i][c] for i in range(pred)]
-            if any(not (a == b or (math.isnan(a) and math.isnan(b))) for a, b in zip(got, want)) or len(got) != pred:
+            if any(not (a == b or (math.isnan(float(a)) and math.isnan(float(b)))) for a, b in zip(got, want)) or len(got) != pred:
                 errs.append(("ins:trajectory-depends-on-stopping-settings", f"{c}: {got} vs {want} criteria={names}"))
         if not fs.ns.finalised:
             errs.append(("ins:not-finalised-on-finishing", f"criteria={names}"))
